@@ -115,6 +115,42 @@ class FakeQueue:
         pass
 
 
+class FakeSimpleQueue:
+    """mp.SimpleQueue: no feeder thread -- put() writes into the pipe itself and blocks while the pipe is full"""
+    CAPACITY = 65536
+
+    def __init__(self, mp, name):
+        self.mp, self.sim, self.name = mp, mp.sim, name
+        self.pipe = []          # (item, size)
+        self.used = 0
+
+    def put(self, item):
+        sim = self.sim
+        data = pickle.dumps(item)
+        size = len(data) + 4
+        sim.log("sput", self.name, self.mp.describe(item), size)
+        if not sim.block(lambda: self.used + size <= self.CAPACITY or not self.pipe):
+            pass
+        self.pipe.append((pickle.loads(data), size))
+        self.used += size
+
+    def get(self):
+        self.sim.block(lambda: bool(self.pipe))
+        item, size = self.pipe.pop(0)
+        self.used -= size
+        self.sim.log("sget", self.name, self.mp.describe(item))
+        return item
+
+    def empty(self):
+        return not self.pipe
+
+    def close(self):
+        pass
+
+    def pending_from(self, task):
+        return 0
+
+
 class FakeProcess:
     def __init__(self, mp, group=None, target=None, name=None, args=(), kwargs=None, daemon=None):
         self.mp, self.name, self.target = mp, name or "Process-%d" % next(mp.proc_counter), target
@@ -131,7 +167,7 @@ class FakeProcess:
             raise AssertionError("cannot start a process twice")
         self.pid = next(mp.pid_counter)
         # fork semantics: the child works on a snapshot of the parent's objects, queues excepted
-        args = tuple(a if isinstance(a, FakeQueue) else copy.copy(a) for a in self.args)
+        args = tuple(a if isinstance(a, (FakeQueue, FakeSimpleQueue)) else copy.copy(a) for a in self.args)
         start_delay = mp.delay("start_delay")
 
         def body():
@@ -245,6 +281,11 @@ class FakeMP:
     # ---- the multiprocessing API annet uses
     def Queue(self, maxsize=0):
         q = FakeQueue(self, "q%d" % len(self.queues))
+        self.queues.append(q)
+        return q
+
+    def SimpleQueue(self):
+        q = FakeSimpleQueue(self, "sq%d" % len(self.queues))
         self.queues.append(q)
         return q
 
